@@ -321,6 +321,9 @@ func (this *RegisterAssetParam) Deserialization(source *common.ZeroCopySource) e
 	if eof {
 		return fmt.Errorf("RegisterAssetParam deserialize length of asset map array error")
 	}
+	if l > source.Len() {
+		return fmt.Errorf("RegisterAssetParam deserialize: asset map count %d exceeds remaining data", l)
+	}
 	assetMap := make(map[uint64][]byte, l)
 	for i := uint64(0); i < l; i++ {
 		k, eof := source.NextVarUint()
@@ -397,6 +400,9 @@ func (this *AssetBind) Deserialization(source *common.ZeroCopySource) error {
 	l, eof := source.NextVarUint()
 	if eof {
 		return fmt.Errorf("RegisterAssetParam deserialize length of asset map array error")
+	}
+	if l > source.Len() {
+		return fmt.Errorf("RegisterAssetParam deserialize: asset map count %d exceeds remaining data", l)
 	}
 	assetMap := make(map[uint64][]byte, l)
 	for i := uint64(0); i < l; i++ {
